@@ -9,6 +9,7 @@ import sympy
 from wadler_lindig import pformat
 
 from mxlpy.meta.sympy_tools import fn_to_sympy, list_of_symbols
+from mxlpy.types import Derived
 
 if TYPE_CHECKING:
     from mxlpy.model import Model
@@ -112,22 +113,23 @@ def to_symbolic_model(model: Model) -> SymbolicModel:
             symbols[k] = expr
 
     # Go through stoichiometries & derived stoichiometries
+    # Computed coefficients stay expressions of the parameter symbols
     eqs: dict[str, sympy.Expr] = {}
-    for cpd, stoich in cache.stoich_by_cpds.items():
-        for rxn, stoich_value in stoich.items():
-            eqs[cpd] = (
-                eqs.get(cpd, sympy.Float(0.0)) + sympy.Float(stoich_value) * rxns[rxn]  # type: ignore
-            )
-    for cpd, dstoich in cache.dyn_stoich_by_cpds.items():
-        for rxn, der in dstoich.items():
-            if (
-                factor := fn_to_sympy(
-                    der.fn, origin=cpd, model_args=[symbols[i] for i in der.args]
-                )
-            ) is None:
-                msg = f"Unable to parse stoichiometry of '{cpd}' in '{rxn}'"
-                raise ValueError(msg)
-            eqs[cpd] = eqs.get(cpd, sympy.Float(0.0)) + factor * rxns[rxn]  # type: ignore
+    for rxn_name, rxn in reactions.items():
+        for cpd, stoich_value in rxn.stoichiometry.items():
+            if isinstance(stoich_value, Derived):
+                if (
+                    factor := fn_to_sympy(
+                        stoich_value.fn,
+                        origin=cpd,
+                        model_args=[symbols[i] for i in stoich_value.args],
+                    )
+                ) is None:
+                    msg = f"Unable to parse stoichiometry of '{cpd}' in '{rxn_name}'"
+                    raise ValueError(msg)
+            else:
+                factor = sympy.Float(stoich_value)
+            eqs[cpd] = eqs.get(cpd, sympy.Float(0.0)) + factor * rxns[rxn_name]  # type: ignore
 
     return SymbolicModel(
         variables=variables,
